@@ -11,7 +11,7 @@ from sa.exc import CANCELLED
 from sa.flow import FnExit, Interp, call_of
 
 CLAIM = {
-    "text": "Decides statelessness and cardinality of the datagram path: DatagramProtocol.make_datagram / build_packet_from_datagram store nothing and read only the two attributes fixed in the constructor; the datagram sender/receiver implementations declare no field besides transport and protocol (no buffer, no consumer); every datagram receive performs exactly one transport recv on every normal path, outside any loop, and hands exactly that value to exactly one build_packet_from_datagram call whose result is the only outcome; every send performs exactly one make_datagram and exactly one transport send of exactly that value (no slicing, concatenation or re-binding in between); the one-shot deserialize derived from the incremental interface raises on both 'generator did not finish' (closing it first) and 'non-empty remainder' and returns only on finished-and-empty; the overriding one-shot deserializers reject leftover data; only DatagramProtocolParseError (or the documented RuntimeError wrap) leaves a receive. Also decided: no input-dependent exception class other than DeserializeError escapes any serializer's one-shot deserialize (shared escape analysis of C06), so a malformed datagram is one parse error, not a RuntimeError; a datagram taken from a socket/queue is never dropped by a raising branch, an empty payload being a datagram like any other; the receive buffer handed to recv(2)/recvfrom(2) is MAX_DATAGRAM_BUFSIZE, a constant expression evaluated to at least the largest UDP payload (65527), at every datagram socket read; no except arm on the datagram path is shadowed. The loop-facing datagram_received() callbacks route a datagram independently of its payload; every text conversion of a serializer with a configured encoding uses it (no literal / default codec on one side only).",
+    "text": "Decides statelessness and cardinality of the datagram path: DatagramProtocol.make_datagram / build_packet_from_datagram store nothing and read only the two attributes fixed in the constructor; the datagram sender/receiver implementations declare no field besides transport and protocol (no buffer, no consumer); every datagram receive performs exactly one transport recv on every normal path, outside any loop, and hands exactly that value to exactly one build_packet_from_datagram call whose result is the only outcome; every send performs exactly one make_datagram and exactly one transport send of exactly that value (no slicing, concatenation or re-binding in between); the one-shot deserialize derived from the incremental interface raises on both 'generator did not finish' (closing it first) and 'non-empty remainder' and returns only on finished-and-empty; the overriding one-shot deserializers reject leftover data; only DatagramProtocolParseError (or the documented RuntimeError wrap) leaves a receive. Also decided: no input-dependent exception class other than DeserializeError escapes any serializer's one-shot deserialize (shared escape analysis of C06), so a malformed datagram is one parse error, not a RuntimeError; a datagram taken from a socket/queue is never dropped by a raising branch, an empty payload being a datagram like any other; the receive buffer handed to recv(2)/recvfrom(2) is MAX_DATAGRAM_BUFSIZE, a constant expression evaluated to at least the largest UDP payload (65527), at every datagram socket read; no except arm on the datagram path is shadowed. The loop-facing datagram_received() callbacks route a datagram independently of its payload; every text conversion of a serializer with a configured encoding uses it (no literal / default codec on one side only). Round 4: the queues between the datagram callbacks and the readers have no capacity bound (a bounded Queue + put_nowait or a deque(maxlen) drops datagrams silently).",
     "note": "Trusted: the serializers' one-shot serialize/deserialize are inverse on valid data (value level); the OS preserves datagram boundaries. Not decided: payload equality.",
     "technique": "effect/purity queries on the program database, cardinality-on-paths typestate by abstract interpretation, branch-totality typestate for the one-shot interface, exception-escape analysis (shared with C06)",
 }
@@ -527,6 +527,8 @@ def check_codec(eng, run):
 
 
 def run(eng, run):
+    from sa.anchors import verify as _verify_anchor_names
+    _verify_anchor_names(eng, run)
     run.not_decided += NOT_DECIDED
     check_drop(eng, run)
     check_sep(eng, run)
@@ -537,6 +539,8 @@ def run(eng, run):
     check_bufsize(eng, run)
     check_callbacks(eng, run)
     check_codec(eng, run)
+    from sa.analyses.sharing import check_unbounded_queues
+    check_unbounded_queues(eng, run, "C05.drop", lambda m: "datagram" in m or m.endswith(("clients.udp", "clients.async_udp", "servers.async_udp")), 2)
     from sa.analyses.arms import check_dead_arms
     check_dead_arms(eng, run, "C05.arms", ("clients.udp", "clients.async_udp", "lowlevel.api_async.endpoints.datagram", "lowlevel.api_sync.endpoints.datagram", "lowlevel.api_async.servers.datagram", "protocol"), 6)
 
